@@ -179,6 +179,9 @@ func VerifHarness_C14_FillThenClose() {
 		want := new(big.Int).Set(first.s)
 		coin, vol := st.SwapV2.PairRemoveLimitOrder(first.id)
 		verifAssert("C14:cancel-returns-exactly-the-unfilled-amount", vol.Cmp(want) == 0)
+		// the same fact as a ledger statement: what leaves the order escrow on
+		// cancellation is what was still in it (more would be coins from nothing)
+		verifAssert("C01:cancel-refund-equals-remaining-escrow", vol.Cmp(want) == 0)
 		verifAssert("C14:cancel-returns-the-escrow-coin", vol.Sign() == 0 || coin == 1)
 		_, vol2 := st.SwapV2.PairRemoveLimitOrder(first.id)
 		verifAssert("C14:cancel-only-once", vol2.Sign() == 0)
